@@ -2898,7 +2898,7 @@ def cbcheck(
             rb_norm = True
 
     if rb_norm:
-        rb_normalizer = rbg[bref]
+        rb_normalizer = rbg[np.searchsorted(bset, bref)]
         ttl = (
             "Stiffness-based coordinates relative to `uref` "
             "because of normalization (`rb_norm`):\n "
